@@ -466,6 +466,7 @@ func mgAliasCase(p *reg.Pkg, seed int64, tier string, id *int, tf *treeFile, sum
 		g.emptyLL = rng.Intn(5) == 0
 		g.emptyConts = rng.Intn(4) == 0
 		t := g.genTree()
+		mgWrapperBinaries(rng, p, t)
 		mgFixEmptyUnionBinary(t)
 		tt := treeTerm(t)
 		c, err, pan := mgSafeCopy(t)
@@ -636,4 +637,49 @@ func mgAliasStream(rng *rand.Rand, n int, tier string, out string) (*Summary, er
 	sum.Cases = id
 	sum.Extra = map[string]interface{}{"case_files": files}
 	return sum, nil
+}
+
+// mgWrapperBinaries: with wrapper unions the tree generator cannot produce a union leaf that
+// holds its binary member (the generated To_<Union> helper takes the package's Binary type, not
+// []byte); here such leaves are set directly, so that the byte array inside the wrapper struct is
+// part of what DeepCopy / MergeStructs have to copy.
+func mgWrapperBinaries(rng *rand.Rand, p *reg.Pkg, t ygot.GoStruct) {
+	if !p.Flags["wrapper_unions"] {
+		return
+	}
+	var binT reflect.Type
+	var find func(rt reflect.Type, depth int)
+	find = func(rt reflect.Type, depth int) {
+		if binT != nil || depth > 6 || rt.Kind() != reflect.Struct {
+			return
+		}
+		for i := 0; i < rt.NumField(); i++ {
+			ft := rt.Field(i).Type
+			switch {
+			case ft.Kind() == reflect.Slice && ft.Elem().Kind() == reflect.Uint8 && ft.Name() == "Binary":
+				binT = ft
+				return
+			case ft.Kind() == reflect.Ptr && ft.Elem().Kind() == reflect.Struct:
+				find(ft.Elem(), depth+1)
+			}
+		}
+	}
+	find(reflect.TypeOf(t).Elem(), 0)
+	if binT == nil {
+		return
+	}
+	for _, s := range mgSlots(p, t) {
+		if s.kind != "leaf" || s.isKey || s.sf.Type.Kind() != reflect.Interface || rng.Intn(2) != 0 {
+			continue
+		}
+		to := s.parent.MethodByName("To_" + s.sf.Type.Name())
+		if !to.IsValid() {
+			continue
+		}
+		b := reflect.MakeSlice(binT, 3, 3)
+		reflect.Copy(b, reflect.ValueOf([]byte{0x10, 0x20, byte(rng.Intn(256))}))
+		if out := to.Call([]reflect.Value{b}); out[1].IsNil() {
+			s.field().Set(out[0])
+		}
+	}
 }
